@@ -742,6 +742,14 @@ func runStress(c strCase, dir string) (any, error) {
 		out["stuck"] = "requests after the stream did not return within 60 s: " + hang2
 		return out, nil
 	}
+	// the same requests once more: nothing has changed in between, so nothing may answer differently (a request that
+	// leaves something behind in the server shows here: the first round asked references, definition, ... in between)
+	var again map[string]string
+	_, hang3 := timed(60*time.Second, func() { again = askAll(sess) })
+	if hang3 != "" {
+		out["stuck"] = "repeated requests after the stream did not return within 60 s: " + hang3
+		return out, nil
+	}
 	for _, u := range uris {
 		sess.unwatch(u)
 	}
@@ -793,6 +801,11 @@ func runStress(c strCase, dir string) (any, error) {
 	for k, w := range want {
 		if got[k] != w {
 			stale = append(stale, map[string]string{"what": k, "got": got[k], "want": w})
+		}
+	}
+	for k, g := range got {
+		if a, ok := again[k]; ok && a != g {
+			stale = append(stale, map[string]string{"what": k + "-repeated", "got": a, "want": g})
 		}
 	}
 	sort.Slice(stale, func(i, j int) bool { return stale[i]["what"] < stale[j]["what"] })
